@@ -279,7 +279,9 @@ pub fn ref_batch_must_reject(txs: &[Transaction], cx: &BatchCtx, check_covenants
                 Some(c) => c,
                 None => return Err(Why::MissingInput),
             };
-            if !legacy_lock && (new_stakes.contains(&i.txhash) || cx.stakes.contains_key(&i.txhash)) {
+            // the staked coin is output 0 of the stake transaction; whether its other outputs are locked too is left open by
+            // the statements (DESIGN 5.13), so only a spend of output 0 is something the reference insists on refusing
+            if !legacy_lock && i.index == 0 && (new_stakes.contains(&i.txhash) || cx.stakes.contains_key(&i.txhash)) {
                 return Err(Why::Locked);
             }
             if check_covenants {
